@@ -549,6 +549,16 @@ var sharedPool = []func() *DNode{
 	func() *DNode { return Arr(Num(1)) },
 	func() *DNode { return Obj().Set("a", Num(1)) },
 	func() *DNode { return Num(1.5) },
+	// containers that are nearly the same: one member / element more or less, another value inside
+	func() *DNode { return Obj().Set("a", Num(1)).Set("b", Num(2)) },
+	func() *DNode { return Obj().Set("a", Num(1)) },
+	func() *DNode { return Obj() },
+	func() *DNode { return Obj().Set("a", Num(2)) },
+	func() *DNode { return Arr(Num(1), Num(2)) },
+	func() *DNode { return Arr() },
+	func() *DNode { return Arr(Arr(Num(1))) },
+	func() *DNode { return Obj().Set("a", Obj().Set("a", Num(1))) },
+	func() *DNode { return Obj().Set("a", Obj().Set("a", Num(1)).Set("b", Null())) },
 }
 
 // relatedLeaf draws the value an operand path should end in, relative to what it is
